@@ -256,6 +256,157 @@ def alias_replay_dict(prog, var, ops, src, vsrc, pre, orig_out, var_out, origin)
     return rep
 
 
+# ------------------------------------------------------------------ wildcard-negation stream
+# (added after seeded change C01-6 was missed.) `!r(X, _)` = "there is no fact r(X, anything)":
+# the wildcard stays in the atom after substitution and premiseNegAtom must scan and UNIFY; a
+# membership test on the substituted atom never finds `r(c, _)`, the negation always succeeds and
+# facts outside the stratified least model are derived. dc.Gen never writes a wildcard into a
+# negated atom (trigger of the old defect F3a, fixed since), so the stream has its own template
+# dc.add_wild_neg. Verdict: the Coq model (Run.C01.judge; Solve.v `step` on PNeg fails iff some
+# stored fact unifies, every `_` is encoded as its own fresh variable, so it is read
+# existentially; Lfp.holds_neg is the same reading, hence strata_exact covers these programs;
+# Datalog/WildNeg.v states the reading declaratively). The stream is judged by `judge` only:
+# Run.C01.run_model_uf applies RuleCheck.rewrite, which knows the wildcard as the variable -1 and
+# would treat the encoder's fresh variables as unbound NAMED variables (atom delayed to the end
+# of the body, the strict run reports an error), so judge_uf is not meaningful on this shape.
+def wildneg_strip(prog):
+    """The program without the negated atoms that contain a wildcard (= what an engine whose
+    negation test cannot see through `_` computes); used to measure how many generated programs
+    are sensitive to the reading of the wildcard."""
+    cl = []
+    for c in prog["clauses"]:
+        cl.append(dict(c, body=[p for p in c["body"] if not (p[0] == "neg" and any(t == ["wild"] for t in p[1]["args"]))]))
+    return dict(prog, clauses=cl)
+
+
+def wildneg_stream(ck):
+    """Runs the stream, reports violations, returns its coverage dict."""
+    wrng = random.Random("%s/wildneg/%d" % (ck.pid, ck.seed))
+    here = os.path.dirname(os.path.abspath(__file__))
+    progs, origin, gstats = [], [], {}
+    for path in sorted(glob.glob(os.path.join(here, "..", "corpus", "C01", "wildneg", "*.json"))):
+        progs.append(json.load(open(path))["program"])
+        origin.append("corpus:wildneg/" + os.path.basename(path))
+    ncorpus = len(progs)
+    want, tries = ck.n(60, 800), 0
+    while len(progs) - ncorpus < want and tries < 3 * want:
+        tries += 1
+        p, sig = dc.gen_program_sig(wrng, big=(not ck.quick) and wrng.random() < 0.3)
+        if wrng.random() < 0.25:
+            dc.add_lets(wrng, p, sig)
+        st = dc.add_wild_neg(wrng, p, sig)
+        if not st:
+            continue
+        for k, n in st.items():
+            gstats[k] = gstats.get(k, 0) + n
+        progs.append(p)
+        origin.append("wildneg-template")
+    go_cases = []
+    for i, p in enumerate(progs):
+        if origin[i].startswith("corpus"):
+            stores, det = ALL_STORES, [False, True]
+        elif ck.quick:
+            stores, det = wrng.sample(ALL_STORES, 2), [wrng.random() < 0.5]
+        else:
+            stores, det = wrng.sample(ALL_STORES, 3), [False, True]
+        go_cases.append(go_case(p, stores, det, shuffle_rng=wrng if wrng.random() < 0.5 else None))
+    # sensitivity: the same programs without their wildcard negations, one store kind
+    strip_cases = [go_case(wildneg_strip(p), ["simple"], [False]) for p in progs]
+    all_outs = ck.run_go("c01", go_cases + strip_cases, timeout=3000)
+    outs, strip_outs = all_outs[:len(progs)], all_outs[len(progs):]
+    terms, where = [], []
+    stage_counts, evaluations, f8 = {}, 0, 0
+    rejected = []
+    for i, o in enumerate(outs):
+        if "out" not in o:
+            ck.violation({"property": "C01", "stream": "wildneg", "kind": "harness error/panic", "program": progs[i],
+                          "src": go_cases[i]["src"], "impl": o})
+            continue
+        st = o["out"]["stage"]
+        stage_counts[st] = stage_counts.get(st, 0) + 1
+        if st != "ok":
+            rejected.append((go_cases[i]["src"], o["out"].get("msg", "")))
+            continue
+        groups = o["out"]["groups"]
+        evaluations += sum(len(g["configs"]) for g in groups)
+        if len(groups) > 1 and f8_in_groups(groups):
+            f8 += 1
+            ck.known("F8 a generated program produced two facts with equal Atom.Hash(): %s / %s" % f8_in_groups(groups)[0])
+            continue
+        if len(groups) > 1 and len(ck.violations) < 5:
+            ck.violation({"property": "C01", "stream": "wildneg",
+                          "kind": "fact-store kinds / rule orders disagree on one program (wildcards in negated atoms)",
+                          "program": progs[i], "src": go_cases[i]["src"], "pre": go_cases[i]["pre"],
+                          "groups": [{"configs": g["configs"], "err": g["err"], "msg": g.get("msg"),
+                                      "facts": group_obs(g)[1]} for g in groups]})
+        for g in groups:
+            try:
+                terms.append(cq_case(progs[i], g))
+                where.append((i, g))
+            except ValueError as e:
+                ck.violation({"property": "C01", "stream": "wildneg",
+                              "kind": "Go produced a value outside the modelled fragment: %s" % e,
+                              "program": progs[i], "src": go_cases[i]["src"], "go": g})
+    verdicts = ck.run_coq("C01", "judge", terms, shard=max(10, len(terms) // 16 + 1), tag="wildneg")
+    vc, errs = {}, {}
+    for (i, g), v in zip(where, verdicts):
+        vc[v] = vc.get(v, 0) + 1
+        errs[g["err"] or "ok"] = errs.get(g["err"] or "ok", 0) + 1
+        if v in (0, 4, 5) or len(ck.violations) >= 5:
+            continue
+        prog = progs[i]
+        kind, mf = model_facts(ck, prog, g)
+        gof = dc.facts_from_go(g["facts"]) if g["err"] == "" else None
+        rep = {"property": "C01", "stream": "wildneg", "verdict": v, "kind": VERDICT[v], "origin": origin[i], "program": prog,
+               "src": go_cases[i]["src"], "pre": go_cases[i]["pre"], "configs": g["configs"],
+               "go": {"err": g["err"], "msg": g.get("msg"), "facts": dc.canon(gof) if gof is not None else None},
+               "model": {"outcome": kind, "facts": dc.canon(mf) if kind == "ok" else mf},
+               "clauses_with_wildcard_negation": [dc.clause_text(c) for c in prog["clauses"]
+                                                  if any(p[0] == "neg" and ["wild"] in p[1]["args"] for p in c["body"])]}
+        if kind == "ok" and gof is not None:
+            ms, gs = set(dc.canon(mf)), set(dc.canon(gof))
+            rep["missing_in_go"] = sorted(ms - gs)
+            rep["extra_in_go"] = sorted(gs - ms)
+            coll = dc.f8_collisions(mf + gof)
+            if coll:
+                f8 += 1
+                ck.known("F8 a generated program produced two facts with equal Atom.Hash(): %s / %s" % coll[0])
+                continue
+        rep["why_violation"] = ("Props/C01.v strata_exact: the model outcome is the stratified least model, a negated atom "
+                                "holding iff NO fact of the completed lower strata unifies with it (Lfp.holds_neg; a wildcard "
+                                "is a variable of its own that nothing binds: Datalog/WildNeg.v neg_wild_existential); the Go "
+                                "store differs from it on this accepted program")
+        ck.violation(rep)
+    # how many programs would show an engine that lets every wildcard negation succeed
+    sensitive = comparable = 0
+    for o, so in zip(outs, strip_outs):
+        if "out" in o and "out" in so and o["out"]["stage"] == "ok" and so["out"]["stage"] == "ok" and len(o["out"]["groups"]) == 1:
+            comparable += 1
+            if group_obs(o["out"]["groups"][0]) != group_obs(so["out"]["groups"][0]):
+                sensitive += 1
+    ngen = len(progs) - ncorpus
+    if len(rejected) > 0.1 * max(1, len(progs)):
+        ck.violation({"property": "C01", "stream": "wildneg",
+                      "kind": "generator: more than 10% of the wildcard-negation programs rejected by analysis",
+                      "no_longer_checks": "correspondence Run.C01.judge (input distribution broken)",
+                      "samples": rejected[:3]}, "no-failing-input-found")
+    ck.log("wildcard-negation stream: %d programs (%d sensitive to the reading of `_`), %d comparisons, verdicts %s"
+           % (len(progs), sensitive, len(terms), {str(k): n for k, n in sorted(vc.items())}))
+    return {"programs": len(progs), "corpus": ncorpus, "generated": ngen, "evaluations": evaluations,
+            "comparisons": len(terms), "verdicts": {str(k): n for k, n in sorted(vc.items())},
+            "inconclusive": vc.get(4, 0) + vc.get(5, 0), "go_outcomes": errs, "analysis_stage": stage_counts,
+            "rejected_samples": rejected[:3], "f8_trigger_skipped": f8, "generator": gstats,
+            "sensitive_programs": sensitive, "sensitivity_comparable": comparable,
+            "rule": "generated programs (dc.gen_program_sig, a quarter with dc.add_lets) whose clauses got wildcards inside "
+                    "negated atoms by dc.add_wild_neg (`_` put into existing negated atoms; new negated atoms over lower-layer / "
+                    "extensional predicates with 1..arity wildcards, bound variables possibly repeated, constants; inserted "
+                    "anywhere behind the binders of their variables, also in recursive clauses and clauses with a transform), "
+                    "evaluated by Go and compared with the Coq model (Run.C01.judge) as the main stream; sensitive_programs = "
+                    "programs whose Go result changes when every negated atom containing a wildcard is deleted (an engine "
+                    "whose negation test cannot see through `_` would differ from the model on exactly those)",
+            "samples": [go_cases[min(len(go_cases) - 1, ncorpus)]["src"]] if go_cases else []}
+
+
 # ------------------------------------------------------------------ the check
 def run(ck):
     ck.obligations()
@@ -575,6 +726,8 @@ def run(ck):
                   "!= / function argument / positive atom / random); candidates judged by the real analysis one clause "
                   "at a time; up to 2 variant programs per original; results compared as (error class, canonical fact "
                   "set) with the original's" % (ALIAS_CLAUSES, ALIAS_CANDS))
+    wn = wildneg_stream(ck)         # wildcards in negated atoms (own generator stream, own Go / Coq runs)
+    evaluations += wn["evaluations"]
     inconclusive = vc.get(4, 0) + vc.get(5, 0)
     feats = {}
     for p in progs:
@@ -606,7 +759,7 @@ def run(ck):
            "go_outcomes": errs, "verdicts": {str(k): n for k, n in sorted(vc.items())},
            "inconclusive": inconclusive, "f8_trigger_skipped": f8_skipped + f8_stores,
            "facts_per_result": {"max": max(sizes or [0]), "mean": round(sum(sizes) / max(1, len(sizes)), 1)},
-           "coqchk": coqchk, "alias_stream": al,
+           "coqchk": coqchk, "alias_stream": al, "wildneg_stream": wn,
            "samples": [go_cases[ncorpus]["src"], go_cases[min(len(go_cases) - 1, ncorpus + 1)]["src"]]}
     if rej_random:
         cov["rejected_samples"] = [(go_cases[i]["src"], m) for i, _, m in rej_random[:3]]
